@@ -126,6 +126,7 @@ type app36 struct {
 	reads  []*readRec
 	panics []problem
 	accept map[string]bool // inbound channel type -> accepted
+	chObjs []ssh.Channel
 
 	wg          sync.WaitGroup
 	active      atomic.Int64 // plan goroutines still working through their actions
@@ -231,6 +232,9 @@ func (a *app36) start() {
 // serveChannel drains the channel's request stream, reads both streams to the
 // end and performs the channel's (token-determined) actions.
 func (a *app36) serveChannel(tok string, ch ssh.Channel, reqs <-chan *ssh.Request) {
+	a.mu.Lock()
+	a.chObjs = append(a.chObjs, ch)
+	a.mu.Unlock()
 	a.spawn(func() {
 		for req := range reqs {
 			seq := a.pipe.Mark(0, "deliver:chanreq:"+req.Type, 0)
